@@ -96,6 +96,19 @@ static std::string run_kind(const std::string& op, const std::string& v)
   return "HARNESS-ERROR op";
 }
 
+// storemix <abi> <pointee kind> <value kind> <v>: a plain value of one integer type stored through a
+// tainted pointer to another (tainted_volatile<K>::operator= with an unwrapped right-hand side)
+template<typename K, typename F>
+static std::string run_storemix(const std::string& v)
+{
+  auto p = sandbox.template malloc_in_sandbox<K>();
+  std::memset(p.UNSAFE_unverified(), 0xAB, 16);
+  *p = parse_int<F>(v);
+  G<K> raw;
+  std::memcpy(&raw, p.UNSAFE_unverified(), sizeof(raw));
+  return "OK " + show_int(raw);
+}
+
 static std::string run_case(const toks_t& t0)
 {
   // <op> <abi> <kind> <v>   (ops of the wide configuration carry a 'w' prefix)
@@ -105,6 +118,17 @@ static std::string run_case(const toks_t& t0)
   if (t.size() < 3) return out;
   sandbox.get_sandbox_impl()->bump = 16;
   if (t[2] == "wchar") return "NOCOMPILE";
+  if (t[0] == "storemix") {
+    if (t.size() < 5 || t[3] == "wchar") return "NOCOMPILE";
+    with_kind(t[2], [&](auto k) {
+      using K = typename decltype(k)::type;
+      with_kind(t[3], [&](auto f) {
+        using F = typename decltype(f)::type;
+        if constexpr (!std::is_same_v<K, wchar_t> && !std::is_same_v<F, wchar_t>) out = run_storemix<K, F>(t[4]);
+      });
+    });
+    return out;
+  }
   with_kind(t[2], [&](auto k) {
     using K = typename decltype(k)::type;
     if constexpr (!std::is_same_v<K, wchar_t>) {
